@@ -462,8 +462,16 @@ def differential(rep, name, geo, rng, npoints, nlines):
                     if cols[a].surface > l.bottom and l.bottom < z and (z < l.top or (l is lays[1] and z < cols[a].surface)):
                         want = geo.block_name(l.name, cols[a].name)
             useq = rng.random() < 0.5
+            bmap = {}
+            if want is not None and rng.random() < 0.3:
+                # the caller's block mapping: the reported name is the mapped one, for the mapped block only
+                bmap = {want: "MAP 1", geo.block_name(lays[-1].name, cols[(a + 1) % len(cols)].name): "MAP 2"}
+                want = bmap.get(want, want)
             with core.quiet():
-                got = geo.block_name_containing_point(np.array([pos[0], pos[1], z]), qtree=qt if useq else None)
+                if bmap:
+                    got = geo.block_name_containing_point(np.array([pos[0], pos[1], z]), qtree=qt if useq else None, blockmap=bmap)
+                else:
+                    got = geo.block_name_containing_point(np.array([pos[0], pos[1], z]), qtree=qt if useq else None)
             rep.traces += 1
             rep.case(("dblk", name, want is not None, useq))
             if got != want:
